@@ -5,7 +5,7 @@ import re
 from sa import run as _run
 from sa import q as Q
 from sa.pathsim import PathSim, C
-from . import e9
+from . import e9, skiplist
 
 PROPERTY = "C18"
 LEVEL = "other"
@@ -22,7 +22,8 @@ TUS = {
 EXPLANATION = (
     "Only the size()/empty() clause of C18 is decided: in the ordered containers (lists, skip list, Ellen tree, Bronson map, split list) the "
     "item counter changes at most once per operation and only on success paths, every public inserting/removing member reaches a counter "
-    "change of the right direction, size() returns that counter. Sortedness, "
+    "change of the right direction, size() returns that counter. Plus one structural necessary condition of the skip-list level property: "
+    "link positions (pPrev[]/pSucc[]/pCur) are produced only by the key-ordered search routines (who-may-write table). Sortedness, "
     "exactly-once traversal, search-tree order, AVL balance and the skip-list level property are properties of the runtime heap shape and are "
     "not decided by this check.")
 ASSUMPTIONS = ["clang CFG (-DNDEBUG)", "only the counter clause is claimed"]
@@ -57,5 +58,17 @@ def r18_2(ctx):
 r18_2.rule_id = "R18.2"
 
 
-RULES = [r18_1, r18_2]
-FLOORS = {"R18.1": 100, "R18.2": 6}
+def r18_3(ctx):
+    """necessary condition of 'each skip-list level is a sorted sub-list of the level below': positions used for linking come only from the
+    key-ordered search routines"""
+    n = skiplist.rule_position_writers(ctx, "R18.3", "Otherwise a skip-list level stops being a sorted sub-list of the level below (C18, level clause).")
+    if n < 8:
+        ctx.broken("skip-list position writes not found (%d)" % n)
+    m = skiplist.rule_link_provenance(ctx, "R18.3", "Otherwise a skip-list level stops being a sorted sub-list of the level below (C18, level clause).")
+    if m < 2:
+        ctx.broken("skip-list link CAS sites not found (%d)" % m)
+r18_3.rule_id = "R18.3"
+
+
+RULES = [r18_1, r18_2, r18_3]
+FLOORS = {"R18.1": 100, "R18.2": 6, "R18.3": 8}
